@@ -1,5 +1,6 @@
 """C01 — no validating entry point ever yields an instance that violates its declaration."""
 import json
+import random
 from ..suites import construct as S
 
 ID = "C01"
@@ -120,7 +121,7 @@ def run_inherit(case):
 
 
 def cases(rng, tier):
-    return S.gen_cases(rng, tier, 90 if tier == "quick" else 1200) + inherit_cases(rng, 150 if tier == "quick" else 3000)
+    return S.gen_cases(rng, tier, 90 if tier == "quick" else 1200) + S.default_cases(random.Random(str(rng.getstate()[1][0])), tier, 150 if tier == "quick" else 2500) + S.crosstype_cases() + inherit_cases(rng, 150 if tier == "quick" else 3000)
 
 
 def search_cases(rng, tier):
